@@ -59,7 +59,7 @@ class C01(Check):
     LEVEL = 'model_checking'
     ENGINE = 'SCHED'
     RULE = ('programs = 10 experiment shapes (1x1; 2 envs x stateful learners; shared chunk() prefix with shuffle(n=2); explicit triple list with a '
-            'shared learner, SequentialCB/RejectionCB and a logged env; PMF- and kwargs-returning learners; custom evaluator + cache() prefix; RejectionCB next to learners writing learning_info; one learner under several evaluators, plain and chunked; an empty environment behind a chunk with a summary-row evaluator) x '
+            'shared learner, SequentialCB/RejectionCB and a logged env; plus a pipeline alphabet of 31 single environment filters/sources built with non-default parameters (P:<name>, default schedules only); PMF- and kwargs-returning learners; custom evaluator + cache() prefix; RejectionCB next to learners writing learning_info; one learner under several evaluators, plain and chunked; an empty environment behind a chunk with a summary-row evaluator) x '
             'configurations processes{1,2,3} x maxchunksperchild{0,1,2} x maxtasksperchunk{0,1,2} x seeds; for each, every schedule of the '
             'simulated worker processes / loader / callbacks / log thread with <= b deviations from each default policy is executed; '
             'non-trivial = worker processes were spawned (or, for (1,0,0), the run is the reference itself run a second time)')
@@ -94,6 +94,10 @@ class C01(Check):
                     for seed in ((1, 7) if shape in ('S2', 'S5') else (1,)):
                         b = 1 if (shape in ('S1', 'S2', 'S5') and seed == 1) or cfg in ((2, 0, 0), (2, 1, 1)) else 0
                         out.append({'shape': shape, 'cfg': list(cfg), 'seed': seed, 'bound': b})
+        # the pipeline alphabet: every environment filter / source with non-default parameters, behind worker processes
+        for name in P.PIPES:
+            for cfg in (((2, 0, 0), (1, 1, 1)) if tier == 'quick' else ((2, 0, 0), (1, 1, 1), (2, 1, 1), (3, 0, 1), (2, 2, 2))):
+                out.append({'shape': 'P:' + name, 'cfg': list(cfg), 'seed': 1, 'bound': 0})
         return out
 
     def ref(self, shape, seed):
@@ -116,6 +120,7 @@ class C01(Check):
 
     def feature(self, case):
         p, c, t = case['cfg']
+        if case['shape'].startswith('P:'): return f"pipeline {case['shape'][2:]} behind worker processes"
         return f"{case['shape']} processes{'=1' if p == 1 else '>1'} maxchunksperchild{'=0' if c == 0 else '>0'} maxtasksperchunk{'=0' if t == 0 else '>0'}"
 
     def run_case(self, case, acc, schedule=None):
@@ -154,7 +159,7 @@ class C01(Check):
             if j:
                 acc.violation(f'Experiment|{j[1]}|{j[0]} {self.feature(case)}', j[2],
                               {'case': case, 'policy': policy, 'schedule': list(prefix)},
-                              order=(SHAPES.index(shape), sum(cfg), sum(1 for c in prefix if c), len(prefix)))
+                              order=(SHAPES.index(shape) if shape in SHAPES else 99, sum(cfg), sum(1 for c in prefix if c), len(prefix)))
         if schedule is not None:
             on_exec(sched.execute(factory(), schedule['schedule'], schedule['policy'], before=before), tuple(schedule['schedule']), schedule['policy'])
             return
